@@ -111,6 +111,14 @@ func renderWord(w word) (string, bool) {
 				return "", false
 			}
 			cs = append(cs, chunk{text: "$" + string(p.Text), isVar: true, name: string(p.Text)})
+		case "digitvar":
+			// $ followed by a digit names the one-character variable (os.Expand's rule for the shell's positional
+			// parameters); identifier bytes after it are literal text: $1x is the value of 1 followed by x
+			n := string(p.Text)
+			if len(n) < 2 || n[0] < '0' || n[0] > '9' || !isIdent(n) {
+				return "", false
+			}
+			cs = append(cs, chunk{text: "$" + n})
 		case "brace":
 			if !validName(string(p.Text)) {
 				return "", false
@@ -263,6 +271,13 @@ func checkA1(c caseA) *vt.Fail {
 							return nil
 						}
 						val.WriteString(v)
+					case "digitvar":
+						v := get(string(p.Text[:1]))
+						if strings.HasPrefix(v, "\x00") {
+							return nil
+						}
+						val.WriteString(v)
+						val.Write(p.Text[1:])
 					case "regexp":
 						v := get(string(p.Text))
 						if strings.HasPrefix(v, "\x00") || len(w) != 1 {
@@ -497,9 +512,15 @@ func trunc(s string, n int) string {
 	return s
 }
 
-var valuePool = []string{"plain", "two words", "tab\there", "it's", "'quoted'", "$HOME", "${X}", "$$", "a#b", "#lead", "x\ry", "", "a.b*c+d?", "[a-z]{2}|(x)", `back\slash`, "\xff\xfe", "é日本", "a=b=c", "  lead and trail  ", "^anchor$"}
-var namePool = []string{"VAR", "FOO", "X_1", "HOME", "lower", "A", "VAR_X", "FOOBAR", "HOME_DIR", "A_B", "X_10", "VA"}
-var wideNames = []string{"a.b", "x-y", "1x", "é", "a:b"}
+var valuePool = []string{"plain", "two words", "tab\there", "it's", "'quoted'", "$HOME", "${X}", "$$", "a#b", "#lead", "x\ry", "", "a.b*c+d?", "[a-z]{2}|(x)", `back\slash`, "\xff\xfe", "é日本", "a=b=c", "  lead and trail  ", "^anchor$",
+	// white space in the Unicode sense that is no word separator of the script language (form feed, vertical tab, NEL,
+	// no-break space, ideographic space): part of the word wherever it stands
+	"x\f", "\vx", "end\u00a0", "\u0085z", "\u3000", "a\u2003b"}
+
+// (names that differ only in letter case are different variables on this platform: var/Var next to VAR, home next to
+// HOME, Lower next to lower)
+var namePool = []string{"VAR", "FOO", "X_1", "HOME", "lower", "A", "VAR_X", "FOOBAR", "HOME_DIR", "A_B", "X_10", "VA", "var", "Var", "home", "Lower", "foo", "a"}
+var wideNames = []string{"a.b", "x-y", "1x", "é", "a:b", "1", "0", "9", "12"}
 
 func genValue(t *rapid.T, label string) []byte {
 	if rapid.IntRange(0, 3).Draw(t, label+"arb") == 0 {
@@ -527,6 +548,10 @@ func genWord(t *rapid.T, names []string) word {
 			}
 			w = append(w, p)
 		case k <= 6:
+			if rapid.IntRange(0, 7).Draw(t, "digitvar") == 6 {
+				w = append(w, piece{Kind: "digitvar", Text: vt.B(rapid.SampledFrom([]string{"1x", "0_9", "12", "1x", "9a", "1X_"}).Draw(t, "dname"))})
+				break
+			}
 			w = append(w, piece{Kind: "var", Text: vt.B(rapid.SampledFrom(namePool).Draw(t, "vname"))})
 		case k == 7:
 			w = append(w, piece{Kind: "brace", Text: vt.B(rapid.SampledFrom(names).Draw(t, "bname"))})
